@@ -17,7 +17,7 @@
    of 0..n-1); [urun] executes micro-steps; [owned owner k]: every statement of iteration i writes a cell owned by i. *)
 From Coq Require Import ZArith QArith Qcanon List Bool Permutation.
 From ScaredV Require Import Lib.QcSum Lib.Interleave Run.Compare Model.Kernels Proofs.Kernels Proofs.KernelsFloat.
-From ScaredV Require Model.Partitioned Model.Mia.
+From ScaredV Require Model.Partitioned Model.Mia Generated.KernelWrites.
 Import ListNotations.
 Open Scope Qc_scope.
 
@@ -225,6 +225,17 @@ Theorem shared_scalar_races :
   /\ pr_run nat Nat.eqb shared_prange (fun _ => 0) 0%nat = 1 + 1.
 Proof. exact shared_scalar_races_thm. Qed.
 Print Assumptions shared_scalar_races.
+
+(* ---------------------------------------------------------------- the footprints, read off the source (T-tie) *)
+(* over the table regenerated from /repo on every run: in the body of each of the five prange loops every store goes to an
+   array private to the iteration, or is under `if ivar == 0` (and then every store to that array is), or carries the
+   induction variable at one fixed index position of that array; no stored shared array is read by subscript, no scalar is
+   reduced; and the arrays / positions are those the owner functions of the model assume *)
+Theorem prange_write_targets_disjoint :
+  forallb kernel_writes_ok KernelWrites.kernel_writes = true
+  /\ map kw_summary KernelWrites.kernel_writes = model_footprints.
+Proof. split; vm_compute; reflexivity. Qed.
+Print Assumptions prange_write_targets_disjoint.
 
 (* ---------------------------------------------------------------- non-vacuity *)
 Local Open Scope Z_scope.
